@@ -157,6 +157,46 @@ def worker(task):
                 viols=[v + (cnt[v[0]],) for v in best.values()])
 
 
+def burst_worker(task):
+    """bursts of k events at one time / long ladders: a pause at EVERY
+    position, single steps up to every position, a bounded run cut at the
+    burst; thresholds beyond the reach of the <=3-event programs"""
+    clock, k = task
+    coopsched.install()
+    n = 0
+    best, cnt = {}, {}
+    for name, prog, end in progmc.burst_programs(k):
+        nev = k + (0 if name == "ladder" else 1)
+        segs = [[]]
+        for j in range(nev):
+            segs.append([("pause_at", j)])
+            segs.append([("step",)] * (j + 1))
+        segs.append([("upto", 1)])
+        segs.append([("uptoi", 1)])
+        segs.append([("uptoi", 1), ("step",)])
+        for j in sorted({0, 1, k // 2, k - 2, k - 1} & set(range(k))):
+            segs.append([("uptoi_pause", 1 if name != "ladder" else end, j)])
+            segs.append([("pause_at", j), ("pause_at", min(j + 1, nev - 1))])
+            segs.append([("pause_at", j), ("step",), ("uptoi", 1)])
+        for seg in segs:
+            pieces = list(seg) + [("start",), ("start",)]
+            n += 1
+            bad, allspec = judge(prog, clock, pieces, end=end)
+            for b in bad[:1]:
+                kinds = "+".join(sorted({p[0] for p in seg}))
+                sig = "C03:burst:%s:%s:%s" % (name, b[0], kinds)
+                cnt[sig] = cnt.get(sig, 0) + 1
+                rank = k * 100 + len(seg)
+                if sig not in best or rank < best[sig][3]:
+                    rep = {"clock": clock, "pieces": pieces, "end": end,
+                           "program": progmc.prog_to_json(prog)}
+                    best[sig] = (sig, "%s of %d events, %s clock, pieces %s: "
+                                 "%s" % (name, k, clock, pieces[:6], b), rep,
+                                 rank)
+    return dict(clock=clock, k=k, n=n,
+                viols=[v + (cnt[v[0]],) for v in best.values()])
+
+
 def run(ctx):
     quick = ctx.tier == "quick"
     nch = common.NCPU * 2
@@ -183,6 +223,19 @@ def run(ctx):
             ctx.violation(sig, what, rep, rank, count)
     for c, n in sorted(per.items()):
         ctx.part("segmentations on %s clock" % c, executed=n)
+    ks = [1, 2, 3, 5, 8, 9, 12, 16, 17, 24, 25, 26, 32, 33, 34, 40] if quick \
+        else list(range(1, 49)) + [64, 65]
+    bclocks = ["float", "int", "duration"]
+    bn = 0
+    for r in common.pimap(burst_worker, [(c, k) for k in reversed(ks)
+                                         for c in bclocks]):
+        bn += r["n"]
+        for sig, what, rep, rank, count in r["viols"]:
+            ctx.violation(sig, what, rep, rank, count)
+    ctx.part("bursts and ladders of k events, k in %s: a pause at every "
+             "position, single steps up to every position, bounded runs cut "
+             "at the burst" % ks, executed=bn)
+    total += bn
     ctx.coverage.update(
         evaluations=total, distinct_nontrivial=nspec,
         rule="programs: all handler trees with <=3 events (delays {0,1,2}, "
@@ -211,5 +264,6 @@ def replay(data):
     coopsched.install()
     prog = progmc.prog_from_json(data["program"])
     pieces = [tuple(p) for p in data["pieces"]]
-    bad, _ = judge(prog, data["clock"], pieces)
+    bad, _ = judge(prog, data["clock"], pieces,
+                   end=data.get("end", progmc.END))
     return bad or None
